@@ -15,6 +15,10 @@ import FontVerif.Model.Subset
 import FontVerif.Drv.C17Cmap
 import FontVerif.Drv.C17Hvar
 import FontVerif.Drv.C17Gvar
+import FontVerif.Drv.C17Outline
+import FontVerif.Drv.C17Post
+import FontVerif.Drv.C17Colr
+import FontVerif.Drv.C17Layout
 namespace FontVerif.Drv.C17
 open FontVerif FontVerif.Subset
 
@@ -117,6 +121,18 @@ def handle (cmd : String) (args : List String) : Option String :=
     | none =>
       match C17Hvar.handle cmd args with
       | some r => some r
-      | none => C17Gvar.handle cmd args
+      | none =>
+        match C17Gvar.handle cmd args with
+        | some r => some r
+        | none =>
+          match C17Outline.handle cmd args with
+          | some r => some r
+          | none =>
+            match C17Post.handle cmd args with
+            | some r => some r
+            | none =>
+              match C17Colr.handle cmd args with
+              | some r => some r
+              | none => C17Layout.handle cmd args
 
 end FontVerif.Drv.C17
